@@ -173,6 +173,8 @@ def render_bruker(path, f, layout, nd):
             sem.create_dataset(names[0], data=np.array(f["iy"], dtype=np.int32))
             sem.create_dataset(names[1], data=np.array(f["ix"], dtype=np.int32))
         sem.create_dataset("SEM ZOffset", data=np.float64(0.0))
+        if layout.get("no_sem_group") and f["iy"] is None:
+            del sem.parent["SEM"]                 # files written without any SEM group (only without a region of interest)
         data.create_dataset("Phase", data=np.array(f["phase"], dtype=np.int32))
         for name, vals in f["euler"]:
             data.create_dataset(W.s_of(name), data=np.array([v / u for v in vals], dtype=np.float32 if layout.get("f32") else np.float64))
